@@ -160,6 +160,62 @@ def Idx.connect (db : IdxDb) (s : Idx) (victims : List Nat) (height : Nat)
 def Idx.disconnect (db : IdxDb) (s : Idx) (hashes : List Nat) : IdxDb × Idx :=
   (hashes.foldl dropKey db, hashes.foldl Idx.delete s)
 
+/-! ### the unspent index driving the cache (`UnspentIndex.ConnectBlock` / `DisconnectBlock`) -/
+
+/-- a block transaction as the unspent index sees it -/
+structure BTx where
+  h : Nat                    -- hash
+  nout : Nat                 -- number of outputs
+  cacheable : Bool           -- at most `MaxCacheInputsCountPerTransaction` inputs
+  coinbase : Bool
+  ins : List (Nat × Nat)     -- (referenced tx, output index)
+deriving Repr
+
+structure UIdx where
+  txdb : IdxDb                       -- the tx index (hash ↦ height, tx)
+  unspent : List (Nat × List Nat)    -- the unspent bucket
+  cache : Idx
+deriving Repr
+
+/-- the local `unspents` map of `ConnectBlock` after walking the block -/
+def connectLocal (unspent : List (Nat × List Nat)) (txs : List BTx) : List (Nat × List Nat) :=
+  txs.foldl (fun loc t =>
+    let loc := if t.nout = 0 then loc else setKey loc t.h ((loc.lookup t.h).getD [] ++ List.range t.nout)
+    if t.coinbase then loc else
+    t.ins.foldl (fun loc inp =>
+      let cur := match loc.lookup inp.1 with
+        | some v => v
+        | none => (unspent.lookup inp.1).getD []
+      setKey loc inp.1 (cur.erase inp.2)) loc) []
+
+/-- `ConnectBlock` (blocks whose inputs reference existing unspent outputs): trim, cache every
+    transaction, drop from the cache (and the bucket) the transactions that became fully spent —
+    a transaction without outputs never enters the local map and stays cached. -/
+def UIdx.connectBlock (u : UIdx) (victims : List Nat) (height : Nat) (txs : List BTx) : UIdx :=
+  let loc := connectLocal u.unspent txs
+  let spent := (loc.filter (fun p => p.2.isEmpty)).map (·.1)
+  let r := Idx.connect u.txdb u.cache victims height (txs.map fun t => (t.h, t.h, t.cacheable)) spent
+  { txdb := r.1, cache := r.2,
+    unspent := loc.foldl (fun un p => if p.2.isEmpty then dropKey un p.1 else setKey un p.1 p.2) u.unspent }
+
+/-- the local map of `DisconnectBlock` -/
+def disconnectLocal (unspent : List (Nat × List Nat)) (txs : List BTx) : List (Nat × List Nat) × List (Nat × List Nat) :=
+  txs.foldl (fun st t =>
+    let un := if t.nout = 0 then st.2 else dropKey st.2 t.h
+    if t.coinbase then (st.1, un) else
+    (t.ins.foldl (fun loc inp =>
+      let cur := match loc.lookup inp.1 with
+        | some v => v
+        | none => (un.lookup inp.1).getD []
+      setKey loc inp.1 (cur ++ [inp.2])) st.1, un)) ([], unspent)
+
+/-- `DisconnectBlock`: *every* transaction of the block leaves the cache (with or without outputs),
+    the outputs it spent become unspent again. -/
+def UIdx.disconnectBlock (u : UIdx) (txs : List BTx) : UIdx :=
+  let st := disconnectLocal u.unspent txs
+  let r := Idx.disconnect u.txdb u.cache (txs.map (·.h))
+  { txdb := r.1, cache := r.2, unspent := st.1.foldl (fun un p => setKey un p.1 p.2) st.2 }
+
 /-! ## C. decoded block cache -/
 
 abbrev BlockDb := List (Nat × Nat)
